@@ -32,9 +32,8 @@ func ZZC01_blobget_wiring() {
 		alg = digest.SHA512
 	}
 	d := descriptor.Descriptor{MediaType: "application/octet-stream", Digest: alg.FromBytes(want)}
-	if zzBool("size_known") {
-		d.Size = int64(len(want))
-	}
+	// stated size: 0 = unknown, otherwise any value (a descriptor may lie about the size)
+	d.Size = int64(zzInt("stated_size", 0, 5))
 	// what the store really holds under that digest
 	n := zzInt("served_len", 0, 4+zzTier())
 	for k := 0; k <= 4+zzTier(); k++ { // case split: concrete length from here on
@@ -82,6 +81,7 @@ func ZZC01_blobget_wiring() {
 		if rerr == io.EOF {
 			zzReach("clean_eof")
 			zzAssert(string(out) == string(want), "clean_read_delivers_the_named_content")
+			zzAssert(d.Size == 0 || d.Size == int64(len(out)), "clean_read_has_the_stated_size")
 			return
 		}
 		if rerr != nil {
